@@ -158,14 +158,98 @@ def observe(f):
     return t, {"ok": core.table_obs(t)}
 
 
-def construct_real(inp):
-    from biom import Table
+def build_args(inp, variant=None):
+    """the Python objects of one constructor call; `variant` picks how IDs / metadata / keywords are passed"""
+    import numpy as np
+    v = variant or {}
     data = materialise(inp["data"])
+    obs, samp = list(inp["obs"]), list(inp["samp"])
+    how = v.get("ids", "list")
+    if how == "tuple":
+        obs, samp = tuple(obs), tuple(samp)
+    elif how == "ndarray":
+        obs, samp = np.array(obs, dtype=str), np.array(samp, dtype=str)
+    elif how == "object":
+        obs, samp = np.array(obs, dtype=object), np.array(samp, dtype=object)
+    omd, smd = copy.deepcopy(inp.get("omd")), copy.deepcopy(inp.get("smd"))
+    if v.get("md") == "tuple":
+        omd = None if omd is None else tuple(omd)
+        smd = None if smd is None else tuple(smd)
     kw = {}
     if inp.get("dense"):
         kw["input_is_dense"] = True
-    return observe(lambda: Table(data, list(inp["obs"]), list(inp["samp"]), copy.deepcopy(inp.get("omd")),
-                                 copy.deepcopy(inp.get("smd")), **kw))
+    elif v.get("dense_false"):
+        kw["input_is_dense"] = False
+    if v.get("kw"):
+        kw.update(table_id="tid-%s" % v["kw"], type=None, create_date="2020-01-02T03:04:05",
+                  generated_by="verif", observation_group_metadata=None, sample_group_metadata=None, validate=True)
+    return {"data": data, "obs": obs, "samp": samp, "omd": omd, "smd": smd, "kw": kw, "md_kw": bool(v.get("md_kw"))}
+
+
+def values_of(x):
+    """value-level snapshot of an argument (dense content of matrices; stored layout is not a value)"""
+    import numpy as np
+    import scipy.sparse as sp
+    if sp.issparse(x):
+        return ["sp", list(x.shape), x.toarray().tolist()]
+    if isinstance(x, np.ndarray):
+        return ["nd", list(x.shape), x.tolist()]
+    if isinstance(x, dict):
+        return {repr(k): values_of(v) for k, v in x.items()}
+    if isinstance(x, (list, tuple)):
+        return [values_of(e) for e in x]
+    return x
+
+
+def args_values(args):
+    return values_of([args["data"], args["obs"], args["samp"], args["omd"], args["smd"]])
+
+
+class profile_ctx:
+    """run a call under a non-default error profile; warnings and printed messages are swallowed"""
+
+    def __init__(self, profile):
+        self.profile = profile
+
+    def __enter__(self):
+        if not self.profile:
+            return self
+        import warnings
+        import biom.err as E
+        self.E = E
+        self.cm = E.errstate(**{k: r for k, r in self.profile})
+        self.cm.__enter__()
+        self.w = warnings.catch_warnings()
+        self.w.__enter__()
+        warnings.simplefilter("ignore")
+        self.old = E.stdout
+        E.stdout = io.StringIO()
+        return self
+
+    def __exit__(self, *exc):
+        if not self.profile:
+            return False
+        self.E.stdout = self.old
+        self.w.__exit__(*exc)
+        self.cm.__exit__(None, None, None)
+        return False
+
+
+def call_table(args):
+    from biom import Table
+    if args["md_kw"]:
+        return Table(args["data"], args["obs"], args["samp"], observation_metadata=args["omd"],
+                     sample_metadata=args["smd"], **args["kw"])
+    return Table(args["data"], args["obs"], args["samp"], args["omd"], args["smd"], **args["kw"])
+
+
+def construct_real(inp, variant=None):
+    """returns (table or None, observation, caller's values untouched?)"""
+    args = build_args(inp, variant)
+    before = args_values(args)
+    with profile_ctx((variant or {}).get("profile")):
+        t, res = observe(lambda: call_table(args))
+    return t, res, args_values(args) == before
 
 
 def describe(inp):
@@ -189,15 +273,23 @@ def nontrivial_grid(grid):
 def run_construct(ctx, case, tags=(), table_out=None):
     """one constructor call: real code, predicate, model"""
     inp = case["input"]
-    t, res = construct_real(inp)
+    variant = case.get("variant")
+    ctx.journal(case)
+    t, res, kept = construct_real(inp, variant)
     if table_out is not None:
         table_out.append(t)
     req = {"op": "construct", "grid": case["grid"], "n": case["n"], "m": case["m"], "result": res,
+           "input_kept": kept, "profile": (variant or {}).get("profile") or [],
            "input": {"data": lean_data(inp["data"]), "obs": inp["obs"], "samp": inp["samp"],
                      "omd": lean_md(inp.get("omd")), "smd": lean_md(inp.get("smd")), "dense": bool(inp.get("dense"))}}
-    ctx.case({k: case[k] for k in ("op", "input", "grid")}, nontrivial=nontrivial_grid(case["grid"]))
+    ctx.case({k: case.get(k) for k in ("op", "input", "grid", "variant")}, nontrivial=nontrivial_grid(case["grid"]))
     r = ctx.driver.ask(req)
     tags = list(tags) + list(case.get("tags", [])) + [describe(inp)]
+    if variant:
+        tags += ["%s=%s" % (k, v) for k, v in sorted(variant.items()) if v]
+        for k, v in variant.items():
+            if v:
+                ctx.count("variant:%s=%s" % (k, "on" if k in ("profile", "kw") else v))
     outcome = "table" if "ok" in res else res["error"]
     ctx.count("construct:%s" % ("accepted" if outcome == "table" else outcome))
     if r["clause"] == "not-an-encoding":
@@ -212,17 +304,134 @@ def run_construct(ctx, case, tags=(), table_out=None):
     return r
 
 
+INPLACE_OPS = ["transform_obs", "transform_samp", "norm_obs", "norm_samp", "pa", "update_ids_obs", "update_ids_samp",
+               "add_md_obs", "add_md_samp", "filter_obs", "filter_samp"]
+
+
+def apply_inplace(t, op):
+    """an in-place operation of the public API on table `t`"""
+    def halve(v, i, m):
+        return v / 2.0
+    if op == "transform_obs":
+        t.transform(halve, axis="observation", inplace=True)
+    elif op == "transform_samp":
+        t.transform(halve, axis="sample", inplace=True)
+    elif op == "norm_obs":
+        t.norm(axis="observation", inplace=True)
+    elif op == "norm_samp":
+        t.norm(axis="sample", inplace=True)
+    elif op == "pa":
+        t.pa(inplace=True)
+    elif op in ("update_ids_obs", "update_ids_samp"):
+        ax = "observation" if op.endswith("obs") else "sample"
+        t.update_ids({i: str(i) + "_renamed_to_a_much_longer_identifier" for i in t.ids(axis=ax)}, axis=ax, inplace=True)
+    elif op in ("add_md_obs", "add_md_samp"):
+        ax = "observation" if op.endswith("obs") else "sample"
+        t.add_metadata({i: {"added": "x", "grp": "overwritten"} for i in t.ids(axis=ax)}, axis=ax)
+    elif op in ("filter_obs", "filter_samp"):
+        ax = "observation" if op.endswith("obs") else "sample"
+        t.filter([t.ids(axis=ax)[0]], axis=ax, inplace=True)
+    else:
+        raise ValueError(op)
+
+
+def look(t, obs, samp, what):
+    """one look at a table: by position (IDs, matrix) and cell by cell through its own ID lookups"""
+    st = {"what": what, "table": core.table_obs(t)}
+    try:
+        st["byid"] = [[core.frac(t.get_value_by_ids(o, s)) for s in samp] for o in obs]
+    except Exception:  # noqa
+        st["byid"] = None
+    return st
+
+
+def run_independent(ctx, case, tags=()):
+    """two tables from ONE set of argument objects; in-place operations on the first must leave the second (and
+    the caller's values) as they were.  What the caller does to its own objects afterwards is only counted."""
+    inp = case["input"]
+    variant = case.get("variant")
+    rng = __import__("random").Random(case.get("rseed", 0))
+    ctx.journal(case)
+    args = build_args(inp, variant)
+    before = args_values(args)
+    try:
+        t1 = call_table(args)
+        t2 = call_table(args)
+    except Exception as e:  # noqa
+        ctx.case({k: case.get(k) for k in ("op", "input", "grid", "variant", "ops")}, nontrivial=True)
+        ctx.fail(case, "forms_accept", list(tags) + [describe(inp), core.err_name(e)])
+        return
+    stages = [look(t2, inp["obs"], inp["samp"], "after-construction")]
+    kept = [args_values(args) == before]
+    for op in case["ops"]:
+        core.poke_layout(t1, rng)
+        try:
+            apply_inplace(t1, op)
+            what = "sibling-inplace:" + op
+        except Exception as e:  # noqa
+            what = "sibling-inplace-raised:%s:%s" % (op, core.err_name(e))
+        stages.append(look(t2, inp["obs"], inp["samp"], what))
+        kept.append(args_values(args) == before)
+        ctx.count("independent:" + what.split(":")[0] + ":" + op)
+        core.poke_layout(t2, rng)
+    req = {"op": "independent", "grid": case["grid"], "stages": stages, "input_kept": kept,
+           "input": {"data": lean_data(inp["data"]), "obs": inp["obs"], "samp": inp["samp"],
+                     "omd": lean_md(inp.get("omd")), "smd": lean_md(inp.get("smd")), "dense": bool(inp.get("dense"))}}
+    ctx.case({k: case.get(k) for k in ("op", "input", "grid", "variant", "ops")}, nontrivial=nontrivial_grid(case["grid"]))
+    r = ctx.driver.ask(req)
+    tags = list(tags) + [describe(inp)] + list(case["ops"])
+    if not r["model_holds"]:
+        ctx.diverge(case, "theorem independent_model contradicted by the driver", tags)
+    if not r["holds"]:
+        bad = [st["what"] for st in stages]
+        ctx.fail(case, r["clause"], tags, detail={"stages": bad, "input_kept": kept, "last": stages[-1]})
+    elif not r["agree"]:
+        ctx.diverge(case, "a later look at the table differs from the model", tags, detail={"model": r["model"]})
+    # outside the property (counted only): the caller overwrites its own objects after the construction
+    overwrite_after(ctx, args, t2, inp)
+
+
+def overwrite_after(ctx, args, t, inp):
+    import numpy as np
+    import scipy.sparse as sp
+    want = core.table_obs(t)
+    d = args["data"]
+    try:
+        if isinstance(d, np.ndarray):
+            d[...] = 7
+        elif sp.issparse(d) and hasattr(d, "data") and isinstance(d.data, np.ndarray) and d.data.dtype != object:
+            d.data[...] = 7
+        elif isinstance(d, list) and d and isinstance(d[0], list) and d[0]:
+            d[0][-1] = 7
+        elif isinstance(d, dict) and d:
+            d[next(iter(d))] = 7
+        for ids in (args["obs"], args["samp"]):
+            if isinstance(ids, np.ndarray) and len(ids):
+                ids[0] = "zz"
+        for md in (args["omd"], args["smd"]):
+            if isinstance(md, list) and md and isinstance(md[0], dict):
+                md[0]["grp"] = "changed by the caller"
+    except Exception:  # noqa
+        return
+    now = core.table_obs(t)
+    ctx.count("caller-overwrites-afterwards:table-%s" % ("unchanged" if now == want else "follows-the-caller"))
+
+
 def run_decode(ctx, case, tags=()):
     """inputs outside the property's domain (empty ID lists, out-of-range coordinates, ragged input,
     unknown types): only the model/code agreement is checked"""
     inp = case["input"]
-    t, res = construct_real(inp)
-    req = {"op": "decode", "result": res,
+    variant = case.get("variant")
+    ctx.journal(case)
+    t, res, kept = construct_real(inp, variant)
+    req = {"op": "decode", "result": res, "profile": (variant or {}).get("profile") or [],
            "input": {"data": lean_data(inp["data"]), "obs": inp["obs"], "samp": inp["samp"],
                      "omd": lean_md(inp.get("omd")), "smd": lean_md(inp.get("smd")), "dense": bool(inp.get("dense"))}}
-    ctx.case({k: case[k] for k in ("op", "input")}, nontrivial=False)
+    ctx.case({k: case.get(k) for k in ("op", "input", "variant")}, nontrivial=False)
     r = ctx.driver.ask(req)
     ctx.count("decode:%s" % ("table" if "ok" in res else res["error"]))
+    if not kept:
+        ctx.fail(case, "input_untouched", list(tags) + [describe(inp)], detail={"real": res})
     if not r["agree"]:
         ctx.diverge(case, "constructor result differs from the model (outside the property's domain)",
                     list(tags) + [describe(inp)], detail={"real": res, "model": r["model"]})
@@ -697,24 +906,77 @@ def fixed_corpus(ctx):
                       ("fixed", "nested-dense-shape"))
 
 
-def forms_group(ctx, rng, n, m, classes, full, with_md=True, alphabet="mixed"):
+EMPTY_REACTIONS = ["raise", "warn", "print", "call"]
+
+
+def gen_variant(rng, plain=0.45):
+    """how the arguments are passed: ID containers, metadata container / keywords, rarely used keywords, and a
+    profile that differs from the default one in the reaction to `empty` only (irrelevant for non-empty tables)"""
+    if rng.random() < plain:
+        return None
+    v = {"ids": rng.choice(["list", "tuple", "ndarray", "object"]), "md": rng.choice(["list", "tuple"]),
+         "md_kw": rng.random() < 0.3, "kw": rng.choice([0, 0, 1, 2]), "dense_false": rng.random() < 0.2}
+    if rng.random() < 0.3:
+        v["profile"] = [["empty", rng.choice(EMPTY_REACTIONS)]]
+    return v
+
+
+def tricky_ids(rng, k, prefix):
+    """distinct IDs that look alike: extensions, prefixes, case variants, blanks, trailing newline, combining
+    characters, one much longer than the others (IDs live in fixed-width arrays)"""
+    base = [prefix + x for x in ("a", "A", "a ", " a", "aa", "a\n", "a.", "é", "e\u0301", "a" * 40, "a\t", "ab", "b")]
+    pool = list(dict.fromkeys(base + core.tricky_unknown_ids(base[:3])))
+    rng.shuffle(pool)
+    out = pool[:k]
+    i = 0
+    while len(out) < k:
+        out.append("%s%d" % (prefix, i))
+        i += 1
+    return out
+
+
+def forms_group(ctx, rng, n, m, classes, full, with_md=True, alphabet="mixed", wide=False):
     exact = all(c in ("count", "smallcount", "dyadic", "neg") for c in classes)
     G = gen_fraction_grid(rng, n, m, classes)
-    obs = core.gen_ids(rng, n, "O", alphabet)
-    samp = core.gen_ids(rng, m, "S", alphabet)
+    if alphabet == "tricky":
+        obs, samp = tricky_ids(rng, n, "O"), tricky_ids(rng, m, "S")
+    elif wide:
+        obs, samp = ["O%d" % i for i in range(n)], ["S%d" % i for i in range(m)]
+        rng.shuffle(obs); rng.shuffle(samp)   # arguments in non-axis order
+    else:
+        obs = core.gen_ids(rng, n, "O", alphabet)
+        samp = core.gen_ids(rng, m, "S", alphabet)
     omd = gen_good_md(rng, n) if with_md else None
     smd = gen_good_md(rng, m) if with_md else None
     tables = []
     encs = encodings(rng, G, exact, full)
+    if wide:
+        encs = [e for e in encs if e[0]["form"] != "sparse" or e[0].get("variant", "plain") in ("plain", "unsorted")]
+        encs = rng.sample(encs, min(9, len(encs)))
     for data, dense in encs:
         inp = {"data": data, "obs": obs, "samp": samp, "omd": omd, "smd": smd, "dense": dense}
-        case = {"op": "construct", "input": inp, "grid": payload_rows(G), "n": n, "m": m}
+        case = {"op": "construct", "input": inp, "grid": payload_rows(G), "n": n, "m": m, "variant": gen_variant(rng)}
         out = []
-        run_construct(ctx, case, ("forms",), table_out=out)
+        run_construct(ctx, case, ("forms",) + (("wide",) if wide else ()), table_out=out)
         tables.append((describe(inp), out[0]))
         ctx.count("form=" + describe(inp))
-    # all pairwise equal
+    # two tables from one object, in-place operations on one of them: always the float64 CSR (the layout the
+    # constructor could adopt without copying) and a few other forms
+    indep = [e for e in encs if e[0]["form"] == "sparse" and e[0].get("layout") == "csr" and "dtype" not in e[0]][:2]
+    indep += rng.sample(encs, min(2 if not wide else 1, len(encs)))
+    for data, dense in indep:
+        inp = {"data": data, "obs": obs, "samp": samp, "omd": omd, "smd": smd, "dense": dense}
+        ops = rng.sample(INPLACE_OPS[:-2], rng.randint(1, 3)) + rng.sample(INPLACE_OPS[-2:], rng.randint(0, 1))
+        v = gen_variant(rng, plain=0.3)
+        if v:
+            v.pop("profile", None)
+        run_independent(ctx, {"op": "independent", "input": inp, "grid": payload_rows(G), "n": n, "m": m, "ops": ops,
+                              "variant": v, "rseed": rng.randrange(10 ** 6)}, ("independent",))
+    # all pairwise equal, whatever layout earlier reads left behind
     good = [(d, t) for d, t in tables if t is not None]
+    for _, t in good:
+        if rng.random() < 0.5:
+            core.poke_layout(t, rng)
     eqs, bad = [], []
     for (da, a), (db, b) in itertools.combinations(good, 2):
         e = bool(a == b) and bool(b == a) and not bool(a != b)
